@@ -183,7 +183,12 @@ def oracle_c02(case, out):
                         f.append(fail("best_inside", site_of(case), "best-outside-box" + sfx, dict(op=k, bestX=s["bestX"], bestE=s["bestE"])))
                         break
     for op, r in zip(case["ops"], out["opres"]):
-        if op["op"] == "SetRandomInitialPoints":
+        if op["op"] == "SetRandomInitialPoints" and op["lo"] is None:
+            for x in r["pop"]:     # the documented defaults
+                if any(not (-1e3 <= v <= 1e3) for v in x):
+                    f.append(fail("initial_points_inside", site_of(case), "initial-point-outside-defaults", dict(x=x)))
+                    break
+        elif op["op"] == "SetRandomInitialPoints":
             for x in r["pop"]:
                 if any(not (lo <= v <= hi) for v, lo, hi in zip(x, op["lo"], op["hi"])):
                     f.append(fail("initial_points_inside", site_of(case), "initial-point-outside", dict(x=x)))
